@@ -87,7 +87,19 @@ def unmix_py(steps, y):
     return y
 
 
+_GRAPH_CACHE = {}
+
+
 def multiword_graph(n, w, seed, chunk=2**25):
+    key = (n, w, seed, chunk)
+    if key not in _GRAPH_CACHE:
+        if len(_GRAPH_CACHE) > 400:
+            _GRAPH_CACHE.clear()
+        _GRAPH_CACHE[key] = _multiword_graph(n, w, seed, chunk)
+    return _GRAPH_CACHE[key]
+
+
+def _multiword_graph(n, w, seed, chunk=2**25):
     gens = [[(i + 1) % n for i in range(n)], [1, 0] + list(range(2, n))]
     gd = graphs.GDef("perm", gens, [i % min(n, 2**min(w, 20)) for i in range(n)])
     return gd, gd.graph(bit_encoding_width=w, random_seed=seed, hash_chunk_size=chunk)
